@@ -452,7 +452,7 @@ def pred_c05(line, st):
     return None
 
 
-ZK_AREAS = [("zk", {"quick": 25, "thorough": 120}, [], "fast")]
+ZK_AREAS = [("zk", {"quick": 25, "thorough": 80}, [], "fast")]
 ZK_TRUST = ["hash oracle replay: the model recomputes every Fiat-Shamir query string and takes the answer from the run",
             "the zk area runs the non-sanitized build (the library allocates 640 MB line buffers per stack read, which ASan makes very slow)"]
 LEVEL_NOTE = ("Trusted: Lean kernel, propext/Classical.choice/Quot.sound, the C++ harness and its libgcrypt interposer, the compiled Lean driver; "
@@ -460,7 +460,7 @@ LEVEL_NOTE = ("Trusted: Lean kernel, propext/Classical.choice/Quot.sound, the C+
 
 PROPS["C01"] = dict(
     module="TmcgProps.C01",
-    areas=[("vtmf", {"quick": 150, "thorough": 1000}, [], "san"), ("tmcg", {"quick": 200, "thorough": 1500}, [], "san")],
+    areas=[("vtmf", {"quick": 150, "thorough": 300}, [], "san"), ("tmcg", {"quick": 200, "thorough": 500}, [], "san")],
     obligations=[("Tmcg.C01.vtmf_open_correct", "full"), ("Tmcg.C01.vtmf_open_missing_share", "full"),
                  ("Tmcg.C01.vtmf_players_spec", "full"), ("Tmcg.C01.remask_preserves_plain", "full"),
                  ("Tmcg.C01.tmcg_open_correct", "full"), ("Tmcg.C01.tmcg_secret_columns", "full"),
@@ -474,7 +474,7 @@ PROPS["C01"] = dict(
 )
 PROPS["C02"] = dict(
     module="TmcgProps.C02",
-    areas=[("shuffle", {"quick": 150, "thorough": 1000}, [], "san")],
+    areas=[("shuffle", {"quick": 150, "thorough": 300}, [], "san")],
     obligations=[("Tmcg.C02.mix_opens_to_source", "full"), ("Tmcg.C02.mix_preserves_multiset", "full"),
                  ("Tmcg.C02.nonbijective_drops", "full"), ("Tmcg.C02.fresh_secret_is_bijection", "full"),
                  ("Tmcg.C02.fresh_rotation_is_shift", "full"), ("Tmcg.C02.import_accepts_iff_bijection", "full"),
@@ -505,7 +505,7 @@ PROPS["C03"] = dict(
 )
 PROPS["C08"] = dict(
     module="TmcgProps.C08",
-    areas=[("vtmf", {"quick": 150, "thorough": 1000}, [], "san")],
+    areas=[("vtmf", {"quick": 150, "thorough": 300}, [], "san")],
     obligations=[("Tmcg.C08.key_refines_product", "full"), ("Tmcg.C08.all_orders_same_key", "full"),
                  ("Tmcg.C08.all_players_agree", "full"), ("Tmcg.C08.refused_is_noop", "full"),
                  ("Tmcg.C08.outside_group_refused", "full"), ("Tmcg.C08.remove_restores", "full"),
@@ -714,7 +714,7 @@ def pred_c06(line, st):
 
 PROPS["C06"] = dict(
     module="TmcgProps.C06",
-    areas=[("groups", {"quick": 160, "thorough": 1500}, [], "san")],
+    areas=[("groups", {"quick": 160, "thorough": 800}, [], "san")],
     obligations=[("Tmcg.C06.checkGroup_D_iff", "full"), ("Tmcg.C06.checkGroup_D_canonical_iff", "full"),
                  ("Tmcg.C06.checkGroup_G_iff", "full"), ("Tmcg.C06.checkGroup_R_canonical_iff", "full"),
                  ("Tmcg.C06.checkGroup_NP_iff", "full"), ("Tmcg.C06.checkGroup_PT_iff", "full"),
@@ -744,10 +744,10 @@ def pred_c11(line, st):
     return None
 
 
-PROPS["C06"]["areas"] = [("groups", {"quick": 160, "thorough": 1500}, [], "san")]
+PROPS["C06"]["areas"] = [("groups", {"quick": 160, "thorough": 800}, [], "san")]
 PROPS["C11"] = dict(
     module="TmcgProps.C11",
-    areas=[("io", {"quick": 200, "thorough": 2500}, [], "san")],
+    areas=[("io", {"quick": 200, "thorough": 1500}, [], "san")],
     obligations=[("Tmcg.C11.int62_roundtrip", "full"), ("Tmcg.C11.card_import_export", "full"),
                  ("Tmcg.C11.secret_import_export", "full"), ("Tmcg.C11.stack_import_export", "full"),
                  ("Tmcg.C11.stack_import_refuses_size", "full"), ("Tmcg.C11.stacksecret_import_export", "full"),
@@ -792,7 +792,7 @@ def pred_c13(line, st):
 
 PROPS["C13"] = dict(
     module="TmcgProps.C13",
-    areas=[("aio", {"quick": 96, "thorough": 1000}, [], "san")],
+    areas=[("aio", {"quick": 96, "thorough": 500}, [], "san")],
     obligations=[("Tmcg.C13.recv_fragmentation_invariant_safety", "full"),
                  ("Tmcg.C13.recv_fragmentation_invariant_delivery", "full"),
                  ("Tmcg.C13.send_fits_buffer", "full"), ("Tmcg.C13.first_newline_is_delimiter", "full"),
@@ -820,8 +820,8 @@ def pred_c12(line, st):
 
 PROPS["C12"] = dict(
     module="TmcgProps.C12",
-    areas=[("io", {"quick": 200, "thorough": 2500}, [], "san"), ("groups", {"quick": 100, "thorough": 1500}, [], "san"),
-           ("parse", {"quick": 30, "thorough": 600}, [], "san")],
+    areas=[("io", {"quick": 200, "thorough": 1500}, [], "san"), ("groups", {"quick": 100, "thorough": 800}, [], "san"),
+           ("parse", {"quick": 30, "thorough": 300}, [], "san")],
     obligations=[("Tmcg.C12.imported_indices_in_range", "full"), ("Tmcg.C12.import_alloc_bound", "full"),
                  ("Tmcg.C12.remask_never_traps", "full"), ("Tmcg.C12.mix_never_traps", "full"),
                  ("Tmcg.C12.verifier_index_safe", "full"), ("Tmcg.C12.size_mismatch_aborts", "full")],
